@@ -830,7 +830,10 @@ def _create_rhs(rng, nx, ny, sym):
     from openaerostruct.structures.create_rhs import CreateRHS
     s = _surf(rng, nx, ny, sym)
     loads = rng.normal(size=(ny, 6)) * 1e3
-    loads[np.abs(loads) < 1e-3] = 1.0      # keep a decade away from the 1e-6 N zeroing threshold
+    if rng.uniform() < 0.4:
+        # wide dynamic range: large in-plane loads next to small (but well above the threshold) transverse ones
+        loads = loads * 10.0 ** rng.uniform(-6, 3, size=loads.shape)
+    loads[np.abs(loads) < 1e-4] = 1.0      # keep two decades away from the 1e-6 N zeroing threshold
     zero_branch = bool(rng.uniform() < 0.3)
     if zero_branch:
         loads[rng.integers(ny), rng.integers(6)] = 1e-9      # exercise the zeroing branch well inside it
